@@ -257,7 +257,7 @@ pub fn check(s: &'static dyn Proto, c: &Case, st: &mut Stats, _k: &KnownFindings
 
 pub const BUDGET: Budget = Budget {
     quick: (8, 5, 3),
-    thorough: (12, 6, 3),
+    thorough: (40, 20, 10),
     shrink: 6,
 };
 
